@@ -288,7 +288,7 @@ def step (s : DS) (line : String) : DS × String :=
     | _, _, _, _ => (s, if s.unmodelled then "unmodelled" else "bad-op")
   | "echo" :: _ => withA s fun a =>
       let (a, st, out) := echo a s.sq
-      if st == .ok then ({ s with a := some a }, s!"ok hex={hexB out}")
+      if st == .ok then ({ s with a := some a }, s!"ok hex={hexB out} ln={a.linenumber}")
       else ({ s with a := some a, dead := true }, if st == .fault then "fault" else st.name ++ (if a.exc then " exc" else ""))
   | "toolfetch" :: _ =>
     -- `onefetch` of esl-sfetch with an index: PositionByKey, Read, Echo
